@@ -115,7 +115,11 @@ pub fn expect_hdr(region: &[u8]) -> Expected {
         exp.is(format!("{p}.payload"), Val::Ext(it.off + 8, it.size as usize - 8));
     }
     match w.panic_at {
-        Some(k) => exp.panic(format!("w{k}")),
+        Some(k) => {
+            exp.panic(format!("w{k}"));
+            // polling again after the caught panic: any controlled outcome
+            exp.any("w.after_panic");
+        }
         None => {
             exp.is("w.end", Val::None);
             exp.is("w.after", Val::None);
